@@ -203,7 +203,7 @@ func eCheckC14(args []string) int {
 	run := vkNewRun("C14", tier, "fault_enumeration")
 	depth, segs, capS, plDepth := 5, []int{8192, 12288}, 0, 0
 	if tier == "thorough" {
-		depth, capS, plDepth = 7, 30*60, 0
+		depth, capS, plDepth = 6, 30*60, 0
 	}
 	depth = vkArgInt(args, "depth", depth)
 	segs = eSegs(args, segs)
